@@ -26,7 +26,11 @@ pub fn generate(
 
         let items = gen_inherent_impl_items(&items);
         if let syn::Type::Path(type_path) = &mut *self_ty {
-            type_path.path.segments.last_mut().unwrap().arguments = syn::PathArguments::None;
+            // NOTE: Only the name of the type is used, however its path was qualified
+            let mut type_name = type_path.path.segments.last().unwrap().clone();
+            type_name.arguments = syn::PathArguments::None;
+
+            type_path.path = type_name.into();
         }
 
         remove_param_bounds(&mut generics);
